@@ -522,3 +522,27 @@ def al1(proj, rep, modules):
                                           f'`{ast.unparse(mut)[:50]}` then modifies it in place: entries written in earlier iterations are still there in later ones', m, d)
     rep.count('AL1.loop_local_containers', n)
     return n
+
+
+# ------------------------------------------------------------------------------------------------ K5
+RULE_K5 = ('K5: every scipy.sparse.linalg.eigsh / eigs call names `which` ("LA" / "SA" ...): the default is the eigenvalue of largest MAGNITUDE, which for '
+           'an indefinite matrix is not the algebraic extreme the surrounding code (stabilising shift, numerical range, bounds) takes it for.')
+
+
+def k5(proj, rep, modules):
+    rep.rule('K5', RULE_K5)
+    n = 0
+    for mq in modules:
+        m = proj.mod(mq)
+        for c in ast.walk(m.tree):
+            if isinstance(c, ast.Call) and ast.unparse(c.func).split('.')[-1] in ('eigsh', 'eigs') and 'linalg' in ast.unparse(c.func):
+                rep.touch(m)
+                n += 1
+                w = next((k.value for k in c.keywords if k.arg == 'which'), None)
+                if w is None:
+                    rep.violation('K5', mq, f'`{ast.unparse(c)[:90]}` has no `which=`: ARPACK returns the largest-magnitude eigenvalue; with a dominant negative '
+                                  f'eigenvalue the value is not the largest algebraic one', m, c)
+                else:
+                    rep.ok('K5', mq, f'`{ast.unparse(c)[:50]}...` which={ast.unparse(w)}', m, c)
+    rep.count('K5.eigsh_calls', n)
+    return n
